@@ -93,7 +93,7 @@ func storeSnapshot(s *drv.Server, buckets []string, extraKeys map[string][]strin
 			snap[k] = v
 		}
 	}
-	if s.Kind == drv.FsDir || s.Kind == drv.SingleDir {
+	if drv.HasRealDir(s.Kind) {
 		for k, v := range s.DiskTree() {
 			snap[k] = v
 		}
@@ -248,7 +248,7 @@ func c10Ops() []c10Op {
 
 func runC10(c *Ctx) {
 	r := c.R
-	r.SetRule("three buckets pre-filled with the same related keys (k, d/x, d/y, d/e/z, other, .dot/file); every operation kind (PUT, GET, HEAD, DELETE, copy-to, copy-from, multi-delete, browser POST, multipart complete, Go PutObject/DeleteObject/GetObject, listing prefix, bucket-level requests on hostile bucket names) x ~85 hostile keys ('.', '..', traversal into sibling buckets and bookkeeping storage, './', '//', leading/trailing '/', backslashes, single/double percent-encoding, NUL/control bytes, 255/256-byte segments, internal names, path-prefixes of live keys, case/Unicode variants) on all six backends, each framed by whole-store snapshots (ListBuckets, listings, every object's body/ETag/metadata, bolt's raw buckets and _meta keys, the on-disk tree for fs-dir/single-dir); distinct = (backend, operation, key)")
+	r.SetRule("three buckets pre-filled with the same related keys (k, d/x, d/y, d/e/z, other, .dot/file); every operation kind (PUT, GET, HEAD, DELETE, copy-to, copy-from, multi-delete, browser POST, multipart complete, Go PutObject/DeleteObject/GetObject, listing prefix, bucket-level requests on hostile bucket names, multipart upload ids presented with other keys and buckets) x ~85 hostile keys ('.', '..', traversal into sibling buckets and bookkeeping storage, './', '//', leading/trailing '/', backslashes, single/double percent-encoding, NUL/control bytes, 255/256-byte segments, internal names, path-prefixes of live keys, case/Unicode variants) on all seven backend configurations, each framed by whole-store snapshots (ListBuckets, listings, every object's body/ETag/metadata, bolt's raw buckets and _meta keys, the on-disk tree for fs-dir/single-dir); distinct = (backend, operation, key)")
 	kinds := drv.AllKinds
 	r.Set("backends", kinds)
 	keys := hostileKeys()
@@ -301,7 +301,7 @@ func runC10(c *Ctx) {
 		for oi := range ops {
 			jobs = append(jobs, job{k, oi})
 		}
-		jobs = append(jobs, job{k, -1}, job{k, -2}, job{k, -3}, job{k, -4}, job{k, -5}) // copy-from, listing prefixes, bucket names, opaque keys, bucket-name prefixes
+		jobs = append(jobs, job{k, -1}, job{k, -2}, job{k, -3}, job{k, -4}, job{k, -5}, job{k, -6}) // copy-from, listing prefixes, bucket names, opaque keys, bucket-name prefixes, foreign upload ids
 	}
 	rep.Parallel(len(jobs), 0, func(w, ji int) {
 		j := jobs[ji]
@@ -692,6 +692,89 @@ func runC10(c *Ctx) {
 						s.Put(victim, k, []byte("family:"+victim+"/"+k), drv.H("Content-Type", "text/x-"+victim, "x-amz-meta-owner", victim))
 					}
 				}
+			}
+		case j.oi == -6:
+			// an upload id belongs to the (bucket, key) it was initiated for: requests that carry it
+			// but address another key (also one that a path cleaner would map onto the same name) or
+			// another bucket must be answered NoSuchUpload and leave the upload as it is
+			owner := "mp/target"
+			variants := []string{"mp//target", "mp/./target", "mp/x/../target", "./mp/target", "mp/target/.", "mp/target/x/..", "/mp/target", "mp/target ", "MP/target", "mp/targe", "mp/target2", "mp%2Ftarget", `mp\target`, "y/../mp/target"}
+			for round, op := range []string{"list-parts", "upload-part", "complete", "abort"} {
+				id, resp := mpInitiate(s, target, owner, drv.H("x-amz-meta-owner", "rightful"))
+				if id == "" {
+					r.Violation(sig("C10", backendClass(j.kind), "initiate-failed", ""), resp.String(), nil)
+					return
+				}
+				p1 := mpUploadPart(s, target, owner, id, 1, []byte("rightful part one"), nil)
+				p2 := mpUploadPart(s, target, owner, id, 2, []byte("rightful part two"), nil)
+				if p1.Status != 200 || p2.Status != 200 {
+					return
+				}
+				partsOf := func() string {
+					pr, lresp := mpListParts(s, target, owner, id)
+					if pr == nil {
+						return "ListParts: " + lresp.String()
+					}
+					var sb strings.Builder
+					for _, p := range pr.Parts {
+						fmt.Fprintf(&sb, "%d:%s:%d ", p.PartNumber, p.ETag, p.Size)
+					}
+					return sb.String()
+				}
+				wantParts := partsOf()
+				type addr struct{ b, k string }
+				var others []addr
+				for _, v := range variants {
+					others = append(others, addr{target, v})
+				}
+				for _, ob := range buckets {
+					if ob != target {
+						others = append(others, addr{ob, owner})
+					}
+				}
+				for _, o := range others {
+					r.Eval(1)
+					r.Distinct(fmt.Sprintf("%s|foreign-upload-id|%s|%s/%s", j.kind, op, o.b, o.k))
+					before := storeSnapshot(s, buckets, nil)
+					var q *drv.Req
+					switch op {
+					case "list-parts":
+						q = &drv.Req{Method: "GET", Path: drv.ObjPath(o.b, o.k), Query: drv.Q("uploadId", id)}
+					case "upload-part":
+						q = &drv.Req{Method: "PUT", Path: drv.ObjPath(o.b, o.k), Query: drv.Q("uploadId", id, "partNumber", "1"), Body: []byte("intruder")}
+					case "complete":
+						q = &drv.Req{Method: "POST", Path: drv.ObjPath(o.b, o.k), Query: drv.Q("uploadId", id),
+							Body: completeXML([]model.CompletePart{{N: 1, ETag: p1.ETag()}, {N: 2, ETag: p2.ETag()}})}
+					default:
+						q = &drv.Req{Method: "DELETE", Path: drv.ObjPath(o.b, o.k), Query: drv.Q("uploadId", id)}
+					}
+					resp := s.Do(q)
+					r.Count("foreign_upload_id_requests", 1)
+					what := fmt.Sprintf("%s: %s with the upload id of %s/%s addressed to %s/%q", j.kind, op, target, owner, o.b, o.k)
+					if resp.Panic != nil {
+						r.Violation(sig("C10", backendClass(j.kind), "panic", "foreign-upload-id,"+op), fmt.Sprintf("%s panicked: %v", what, resp.Panic), respDesc(resp))
+						return
+					}
+					// the router trims trailing slashes and unescapes: an address that reaches the owner's key is not foreign
+					if strings.TrimRight(o.k, "/") == owner && o.b == target {
+						continue
+					}
+					if resp.Status < 400 {
+						r.Violation(sig("C10", backendClass(j.kind), "foreign-upload-id-accepted", op+","+keyClass(o.k)), fmt.Sprintf("%s was answered %s", what, resp), map[string]interface{}{"round": round, "response": respDesc(resp)})
+					}
+					if got := partsOf(); got != wantParts {
+						r.Violation(sig("C10", backendClass(j.kind), "foreign-upload-id-changed-upload", op+","+keyClass(o.k)), fmt.Sprintf("%s: the upload's parts were %q and are now %q", what, wantParts, got), nil)
+						return
+					}
+					after := storeSnapshot(s, buckets, nil)
+					if d := snapshotDiff(before, after, func(e string) bool {
+						return strings.HasSuffix(e, ".modtime-resolution") || strings.Contains(e, "uploads")
+					}); len(d) > 0 {
+						r.Violation(sig("C10", backendClass(j.kind), "foreign-upload-id-changed-store", op+","+keyClass(o.k)), fmt.Sprintf("%s changed the store: %s", what, clip(strings.Join(d, "; "), 300)), nil)
+						return
+					}
+				}
+				mpAbort(s, target, owner, id)
 			}
 		case j.oi == -4:
 			// opaque key stores: byte-different keys are different objects
